@@ -63,7 +63,9 @@ def denote(t):
         if k == 'nest':
             return go(t[2], mode, indent + t[1], choose, acc)
         if k == 'ann':
-            return go(t[1], mode, indent, choose, acc)
+            # the annotated stretch is part of what a document denotes: one push / pop pair per annotate(), carrying its annotation
+            lab = t[2] if len(t) > 2 else '<label>'
+            return '\x01%s:' % (lab,) + go(t[1], mode, indent, choose, acc) + '\x02'
         if k == 'ab':
             return go(t[1], 'break', indent, choose, acc)
         if k == 'fc':
@@ -165,7 +167,7 @@ class World:
         if k == 'ab':
             return self.call(self.dm, 'always_break', [self.build(t[1])])
         if k == 'ann':
-            return self.call(self.dm, 'annotate', [Const('<label>'), self.build(t[1])])
+            return self.call(self.dm, 'annotate', [Const(t[2] if len(t) > 2 else '<label>'), self.build(t[1])])
         if k == 'fc':
             return self.call(self.dm, 'flat_choice', [], {'when_broken': self.build(t[1]), 'when_flat': self.build(t[2])})
         raise ValueError(k)
@@ -198,7 +200,8 @@ class World:
         if cn == 'AlwaysBreak':
             return ('ab', self.term_of(g('doc'), depth + 1))
         if cn == 'Annotated':
-            return ('ann', self.term_of(g('doc'), depth + 1))
+            lab_ = g('annotation')
+            return ('ann', self.term_of(g('doc'), depth + 1), lab_.v if isinstance(lab_, Const) else prov(lab_))
         if cn == 'Nest':
             i = g('indent')
             if not (isinstance(i, Const) and isinstance(i.v, int)):
@@ -246,6 +249,8 @@ def scenarios(tier, seed):
         ('fill', [a, L, b, L, a]), g(('fill', [a, L, b, L, a])), ('fill', [a, L, N, L, b]), ('fill', [ab(c(a, L, b)), L, a]), g(('fill', [a, L, ab(b)])), ('fill', [N]), ('fill', []),
         g(c(g(c(a, L, b)), L, g(c(b, L, a)))), g(c(a, H, b)), g(c(a, L, c(N, c(N)), b)),
         c(g(c(a, L, b)), H, g(('nest', 4, c(a, S, b)))),
+        # nested annotations: each annotate() is one push / pop pair, also when the annotations are equal (1 == True) or the same
+        ('ann', ('ann', a)), ('ann', ('ann', a, True), 1), g(c(a, L, ('ann', ('ann', c(b, L, a), 'inner'), 'outer'))), ('ann', g(('ann', a))),
         # a forced break around nothing is still a forced break for the enclosing groups
         g(c(ab(N), L, a)), g(c(a, L, ab(('t', '')))), g(('nest', 2, c(ab(c()), L, a, L, b))), g(c(a, L, ab(g(N)), L, b)), g(c(a, L, ab(('nest', 2, ('t', ''))))),
         g(c(a, L, ('ann', ab(N)))), g(('fill', [a, L, ab(N), L, b])), ('nest', 2, N), g(('nest', 2, ('t', ''))), ab(N), c(a, ab(N), b),
@@ -468,7 +473,9 @@ def denote_fill(t):
 
 
 COMMENT_TEXTS = ['w', 'two words', 'three little words', '  leading blanks', 'trailing blanks   ', 'wide   gaps  inside', 'tab\tseparated',
-                 'first\nsecond', 'first line\nsecond line', 'para one\n\npara two', 'ends with newline\n', 'x\n \ny', ' ', '\n', 'a\n\n\nb', '#hash inside', 'a b\nc']
+                 'first\nsecond', 'first line\nsecond line', 'para one\n\npara two', 'ends with newline\n', 'x\n \ny', ' ', '\n', 'a\n\n\nb', '#hash inside', 'a b\nc',
+                 # line ends other than \\n: a bare carriage return ends a line of Python source too
+                 'one\rtwo', 'dos line\r\nsecond', 'tail\r', 'x\ry z\rw']
 
 
 def comments(repo, rep, rule):
@@ -499,7 +506,7 @@ def comments(repo, rep, rule):
         src_lines = text.splitlines() or ['']
         problem = None
         for lay in sorted(layouts):
-            lines = lay.split('\n')
+            lines = re.split(r'\r\n|\n|\r', lay)       # the line ends of Python source
             if not all(ln.startswith('#') for ln in lines):
                 problem = 'the layout %r has a line that does not start with "#": the rest of the comment would be read as code' % lay
                 break
